@@ -1335,6 +1335,21 @@ class Interp(object):
             m = static_lookup(it.cls, '__iter__')
             if m is not None:
                 r = call_value(ctx, BoundMethod(m[0], it, m[1]), [], {})
+                nx = static_lookup(r.cls, '__next__') if isinstance(r, SObj) else None
+                if nx is not None:
+                    # iterator protocol on an interpreted object: call __next__ until StopIteration
+                    n = 0
+                    while True:
+                        try:
+                            x = call_value(ctx, BoundMethod(nx[0], r, nx[1]), [], {})
+                        except PyExc as e:
+                            if issubclass(exc_class(e.value), StopIteration):
+                                return
+                            raise
+                        n += 1
+                        if n > 4 * MAX_UNROLL:
+                            raise Undecided('iterator object in %s yields too many values' % self.f.fname)
+                        yield x
                 for x in self.iter_values(r):
                     yield x
                 return
